@@ -93,36 +93,39 @@ Inductive reason :=
 (* a raw report: the entry being inserted, the stored endpoint, why *)
 Record report := { r_new : nat; r_old : nat; r_reason : reason }.
 
-(* Is the stored endpoint [g] below the node the walk of [ns] has reached at depth [d]? *)
-Definition same_prefix (d : nat) (ns gs : list str) : bool :=
-  list_eqb shape_eqb (shapes (firstn d ns)) (shapes (firstn d gs)).
+(* What the three report* functions say about a stored endpoint [g] whose segment at the
+   current depth is [gseg], when the new entry's segment there is [seg]:
+   reportParamVsLiterals (g lies under a literal child), reportParamVsParam and
+   reportLiteralVsParam (g lies under the parameter child). *)
+Definition one_report (i : nat) (g : reg) (seg gseg : str) : list report :=
+  if is_param seg then
+    if is_param gseg
+    then [ {| r_new := i; r_old := g_idx g; r_reason := ParVsPar seg gseg |} ]
+    else [ {| r_new := i; r_old := g_idx g; r_reason := ParVsLit seg gseg |} ]
+  else
+    if is_param gseg
+    then [ {| r_new := i; r_old := g_idx g; r_reason := LitVsPar seg gseg |} ]
+    else [].
 
-(* What the three report* functions say about stored endpoint [g] when the walk of the new
-   entry is at depth [d] with segment [seg]. *)
-Definition report_at (i : nat) (v : str) (ns : list str) (d : nat) (seg : str) (g : reg)
-  : list report :=
-  if str_eqb v (g_verb g) && same_prefix d ns (g_segs g) && patterns_conflict ns (g_segs g)
-  then match nth_error (g_segs g) d with
-       | None => []
-       | Some gseg =>
-           if is_param seg then
-             if is_param gseg
-             then [ {| r_new := i; r_old := g_idx g; r_reason := ParVsPar seg gseg |} ]
-             else [ {| r_new := i; r_old := g_idx g; r_reason := ParVsLit seg gseg |} ]
-           else
-             if is_param gseg
-             then [ {| r_new := i; r_old := g_idx g; r_reason := LitVsPar seg gseg |} ]
-             else []
-       end
-  else [].
-
-Fixpoint walk (i : nat) (v : str) (ns : list str) (ix : index) (d : nat) (rest : list str)
-  : list report :=
-  match rest with
-  | [] => []
-  | seg :: rest' =>
-      flat_map (report_at i v ns d seg) ix ++ walk i v ns ix (S d) rest'
+(* The Go loop is "for each depth of the new entry, for each stored endpoint below the
+   current node's relevant child".  A stored endpoint is below the current node exactly as
+   long as its shape agrees with the new entry's on all earlier segments, so the same
+   reports are obtained endpoint by endpoint, scanning both segment lists in step and
+   stopping at the first shape divergence.  (Reports are compared as a multiset.) *)
+Fixpoint scan (i : nat) (g : reg) (ns gs : list str) : list report :=
+  match ns, gs with
+  | seg :: ns', gseg :: gs' =>
+      one_report i g seg gseg ++
+      (if shape_eqb (shape_of seg) (shape_of gseg) then scan i g ns' gs' else [])
+  | _, _ => []
   end.
+
+(* collectEndpointsByMethod keeps the same verb; every report is guarded by patternsConflict *)
+Definition reports_vs (i : nat) (v : str) (ns : list str) (g : reg) : list report :=
+  if str_eqb v (g_verb g) && patterns_conflict ns (g_segs g) then scan i g ns (g_segs g) else [].
+
+Definition walk (i : nat) (v : str) (ns : list str) (ix : index) : list report :=
+  flat_map (reports_vs i v ns) ix.
 
 Definition same_slot (v : str) (ns : list str) (g : reg) : bool :=
   str_eqb v (g_verb g) && list_eqb shape_eqb (shapes ns) (shapes (g_segs g)).
@@ -133,7 +136,7 @@ Definition step (st : index * list report) (ie : nat * entry) : index * list rep
   let '(i, e) := ie in
   let ns := segs e in
   let v := e_verb e in
-  let rs := walk i v ns ix 0 ns in
+  let rs := walk i v ns ix in
   match find (same_slot v ns) ix with
   | Some g => (ix, acc ++ rs ++ [ {| r_new := i; r_old := g_idx g; r_reason := Dup |} ])
   | None => (ix ++ [ {| g_idx := i; g_segs := ns; g_verb := v |} ], acc ++ rs)
